@@ -290,6 +290,17 @@ async fn client_app(net: Net, c: Case, o: Shared<Obs>, go: Signal, sp: Spawner) 
         std::future::pending::<()>().await;
         drop(conn);
     });
+    // under the tiny-step style every request goes through a clone of the handle (with wire spelling 1: a clone of a clone),
+    // made before the peer's SETTINGS can be known: a clone has the limits of the handle it was made from
+    let mut originals = Vec::new();
+    if c.tiny || c.wire == 1 {
+        let cl = sr.clone();
+        originals.push(std::mem::replace(&mut sr, cl));
+        if c.wire == 1 {
+            let cl = sr.clone();
+            originals.push(std::mem::replace(&mut sr, cl));
+        }
+    }
     let small = || http::Request::builder().method("GET").uri("https://a/").body(()).unwrap();
     match c.kind {
         Kind::SendReqHeaders => {
@@ -369,6 +380,7 @@ async fn client_app(net: Net, c: Case, o: Shared<Obs>, go: Signal, sp: Spawner) 
     }
     std::future::pending::<()>().await;
     drop(sr);
+    drop(originals);
 }
 
 fn case_json(c: &Case) -> Value {
